@@ -385,6 +385,53 @@ pub fn run(rep: &'static Report) {
         }
         rep.extra("peak_dec_trailing_data", json!(peaks.iter().map(|p| json!([p.0,p.1])).collect::<Vec<_>>()));
     }
+    // a hostile length field (just below 2^32, 2^31, chunk size + 1) followed by megabytes of data: rejected without
+    // allocating or buffering in proportion to the claimed length or to the data that follows
+    {
+        let tkey = derive32(1, "c11-tiny");
+        for lenv in [0xFFFF_FFF0u32, 0xFFFF_FFFF, 0xFFFF_FFF8, 0x8000_0000, CS as u32 + 1] {
+            let mut peaks = vec![];
+            for n in [1usize << 20, rep.tier.pick(16 << 20, 64 << 20)] {
+                rep.eval(1);
+                struct Hostile {
+                    hdr: [u8; 16],
+                    pos: usize,
+                    extra: usize,
+                    taken: usize,
+                }
+                impl Read for Hostile {
+                    fn read(&mut self, buf: &mut [u8]) -> std::io::Result<usize> {
+                        let total = 16 + self.extra;
+                        let k = buf.len().min(total - self.pos);
+                        for (i, b) in buf[..k].iter_mut().enumerate() {
+                            let p = self.pos + i;
+                            *b = if p < 16 { self.hdr[p] } else { 0x55 };
+                        }
+                        self.pos += k;
+                        self.taken += k;
+                        Ok(k)
+                    }
+                }
+                let mut hdr = [0u8; 16];
+                hdr[12..16].copy_from_slice(&lenv.to_be_bytes());
+                let mut src = Hostile { hdr, pos: 0, extra: n, taken: 0 };
+                let mut sink = std::io::sink();
+                let sub = Subject::TinyDec { key: hx(&tkey), aad: String::new(), cs: CS as u32 };
+                let (res, m) = mon::measured(|| run_rw(&sub, &mut src, &mut sink));
+                if res.is_ok() {
+                    rep.violation("hostile-length/accepted", json!({"kind":"varying-chunks","len_field":lenv}), "stream with a hostile length field accepted".into());
+                }
+                peaks.push((n, m.peak_above_mark, src.taken));
+                rep.nontrivial(format!("hostile-len-{}-{}", lenv, n).as_bytes());
+            }
+            let hi = peaks.iter().map(|p| p.1).max().unwrap();
+            let lo = peaks.iter().map(|p| p.1).min().unwrap();
+            let taken = peaks.iter().map(|p| p.2).max().unwrap();
+            if hi > (1 << 20) || hi - lo > 4096 || taken > 4 * CS {
+                rep.violation("mem/hostile-length-field", json!({"kind":"varying-chunks","len_field":lenv}), format!("a chunk header claiming length {:#x}: peak heap {} bytes, {} bytes of the following data consumed before the rejection (per amount of following data: {:?})", lenv, hi, taken, peaks));
+            }
+        }
+    }
     // authentic streams whose chunks all have DIFFERENT lengths (what an encryptor fed by short, varying reads writes):
     // the peak heap of decryption must not depend on how many such chunks there are
     {
@@ -452,16 +499,18 @@ struct CliRun {
     sent_when_paused: usize,
     out_total: usize,
     code: i32,
+    /// bytes of input the child had accepted when the stalled stdout reader woke up (blocking-pipe stall only)
+    sent_when_reader_woke: usize,
 }
 
 /// Feed `size` bytes from `gen` to the CLI's stdin (first a short write, then 64 KiB writes), withholding
 /// the last MiB until output has caught up; stdout is drained and counted; returns peak RSS from wait4.
 fn cli_stream(args: &[&str], env: &[(&str, &str)], cwd: &std::path::Path, input: Box<dyn FnMut(&mut [u8]) -> usize + Send>, size: usize, via_fifo: bool) -> Result<CliRun, String> {
-    cli_stream_opts(args, env, cwd, input, size, via_fifo, 0)
+    cli_stream_opts(args, env, cwd, input, size, via_fifo, 0, false)
 }
 
 /// `stall_ms` > 0: the child's stdout is a NON-BLOCKING pipe whose reader does not start draining for that long
-fn cli_stream_opts(args: &[&str], env: &[(&str, &str)], cwd: &std::path::Path, input: Box<dyn FnMut(&mut [u8]) -> usize + Send>, size: usize, via_fifo: bool, stall_ms: u64) -> Result<CliRun, String> {
+fn cli_stream_opts(args: &[&str], env: &[(&str, &str)], cwd: &std::path::Path, input: Box<dyn FnMut(&mut [u8]) -> usize + Send>, size: usize, via_fifo: bool, stall_ms: u64, blocking_stall: bool) -> Result<CliRun, String> {
     use std::os::unix::io::FromRawFd;
     use std::process::{Command, Stdio};
     use std::sync::atomic::{AtomicUsize, Ordering};
@@ -469,7 +518,7 @@ fn cli_stream_opts(args: &[&str], env: &[(&str, &str)], cwd: &std::path::Path, i
     let mut c = Command::new(KESTREL);
     c.args(args).env_clear().current_dir(cwd).stderr(Stdio::null());
     let mut own_read_end: Option<std::fs::File> = None;
-    if stall_ms > 0 {
+    if stall_ms > 0 && !blocking_stall {
         let mut fds = [0i32; 2];
         unsafe {
             if libc::pipe2(fds.as_mut_ptr(), libc::O_CLOEXEC) != 0 {
@@ -536,9 +585,13 @@ fn cli_stream_opts(args: &[&str], env: &[(&str, &str)], cwd: &std::path::Path, i
     } else {
         None
     };
+    let sent_now = Arc::new(AtomicUsize::new(0));
+    let woke = Arc::new(AtomicUsize::new(0));
+    let (sn2, wk2) = (sent_now.clone(), woke.clone());
     let reader = std::thread::spawn(move || {
         if stall_ms > 0 {
             std::thread::sleep(std::time::Duration::from_millis(stall_ms));
+            wk2.store(sn2.load(Ordering::SeqCst), Ordering::SeqCst);
         }
         let mut buf = vec![0u8; 1 << 16];
         loop {
@@ -551,6 +604,7 @@ fn cli_stream_opts(args: &[&str], env: &[(&str, &str)], cwd: &std::path::Path, i
         }
     });
     let o3 = outn.clone();
+    let sn3 = sent_now.clone();
     let feeder = std::thread::spawn(move || -> (usize, usize) {
         let mut input = input;
         let mut buf = vec![0u8; 1 << 16];
@@ -576,6 +630,7 @@ fn cli_stream_opts(args: &[&str], env: &[(&str, &str)], cwd: &std::path::Path, i
                 break;
             }
             sent += n;
+            sn3.store(sent, Ordering::SeqCst);
             if first {
                 first = false;
                 let _ = si.flush();
@@ -599,7 +654,7 @@ fn cli_stream_opts(args: &[&str], env: &[(&str, &str)], cwd: &std::path::Path, i
         return Err("wait4 failed".into());
     }
     let code = if libc::WIFEXITED(status) { libc::WEXITSTATUS(status) } else { -1 };
-    Ok(CliRun { maxrss_kib: ru.ru_maxrss, out_when_paused: paused.0, sent_when_paused: paused.1, out_total: outn.load(std::sync::atomic::Ordering::SeqCst), code })
+    Ok(CliRun { maxrss_kib: ru.ru_maxrss, out_when_paused: paused.0, sent_when_paused: paused.1, out_total: outn.load(std::sync::atomic::Ordering::SeqCst), code, sent_when_reader_woke: woke.load(std::sync::atomic::Ordering::SeqCst) })
 }
 
 fn cli_level(rep: &Report) {
@@ -701,7 +756,7 @@ fn cli_level(rep: &Report) {
                 pos += n;
                 n
             });
-            match cli_stream_opts(args, &[("KESTREL_PASSWORD", pw)], &sc.0, input, big, false, 1500) {
+            match cli_stream_opts(args, &[("KESTREL_PASSWORD", pw)], &sc.0, input, big, false, 1500, false) {
                 Err(e) => crate::report::machinery(&format!("CLI streaming run failed to start: {}", e)),
                 Ok(c) => {
                     let base = results.iter().filter(|r| r.0 == *name).filter_map(|r| r.2.as_ref().ok()).map(|x| x.maxrss_kib).min().unwrap_or(0);
@@ -711,6 +766,67 @@ fn cli_level(rep: &Report) {
                             &format!("cli/rss-grows-nonblocking-stdout-{}", name),
                             json!({"kind":"cli-nonblock","cmd":name}),
                             format!("kestrel {} into a non-blocking stdout pipe whose reader stalls: peak RSS {} KiB vs {} KiB with a blocking pipe ({} bytes of input offered)", name, c.maxrss_kib, base, big),
+                        );
+                    }
+                }
+            }
+        }
+    }
+    // BLOCKING stdout pipe whose reader does not read for 1.5 s: the tool must stop taking input once the pipes are full
+    // (a writer thread fed through an unbounded queue would swallow the whole input meanwhile)
+    {
+        let big = *sizes.iter().max().unwrap();
+        for (name, args, pw) in cmds.iter() {
+            rep.eval(1);
+            rep.nontrivial(format!("cli-stalled-reader-{}", name).as_bytes());
+            let sc = Scratch::new();
+            sc.write("kr.txt", kr.as_bytes());
+            let (input, insize): (Box<dyn FnMut(&mut [u8]) -> usize + Send>, usize) = if name.contains("decrypt") {
+                let (header, key, aad) = if name.starts_with("decrypt") {
+                    let pay = derive32(seed, "c11-cli-pay");
+                    let m = r::noise_x_write(&r::XRoles::honest(&r::KEY_MAGIC, &alice.sk, &bob.pk, &derive32(seed, "c11-cli-e")), &pay).unwrap();
+                    let mut h = r::KEY_MAGIC.to_vec();
+                    h.extend_from_slice(&m.message);
+                    (h, r::file_key_from_handshake(&pay, &m.h), vec![])
+                } else {
+                    let mut h = r::PASS_MAGIC.to_vec();
+                    h.extend_from_slice(&salt);
+                    (h, pkey, r::PASS_MAGIC.to_vec())
+                };
+                let total = header.len() + big + 32 * ((big + CS - 1) / CS).max(1);
+                let mut rd = CtReader { header, hpos: 0, key, aad, len: big, chunk: CS, next_plain: 0, idx: 0, cur: vec![], cpos: 0, done: false, handed_plain: Rc::new(Cell::new(0)), handed_recs: Rc::new(Cell::new(0)) };
+                struct SendPtr2(CtReader);
+                unsafe impl Send for SendPtr2 {}
+                impl SendPtr2 {
+                    fn rd(&mut self, b: &mut [u8]) -> usize {
+                        self.0.read(b).unwrap_or(0)
+                    }
+                }
+                let mut w = SendPtr2(rd_take(&mut rd));
+                (Box::new(move |b: &mut [u8]| w.rd(b)), total)
+            } else {
+                let mut pos = 0usize;
+                (
+                    Box::new(move |b: &mut [u8]| {
+                        let n = b.len().min(big - pos);
+                        for (k, x) in b[..n].iter_mut().enumerate() {
+                            *x = pbyte(pos + k);
+                        }
+                        pos += n;
+                        n
+                    }),
+                    big,
+                )
+            };
+            match cli_stream_opts(args, &[("KESTREL_PASSWORD", pw)], &sc.0, input, insize, false, 1500, true) {
+                Err(e) => crate::report::machinery(&format!("CLI streaming run failed to start: {}", e)),
+                Ok(c) => {
+                    rep.extra(&format!("cli_stalled_reader_{}", name), json!({"exit":c.code,"input_taken_while_reader_stalled":c.sent_when_reader_woke,"maxrss_kib":c.maxrss_kib}));
+                    if c.sent_when_reader_woke > (2 << 20) {
+                        rep.violation(
+                            &format!("cli/input-swallowed-while-output-is-not-taken-{}", name),
+                            json!({"kind":"cli-stall","cmd":name}),
+                            format!("kestrel {}: while nothing was read from its (blocking) stdout pipe for 1.5 s it took {} bytes of input (of {} offered); output is not produced incrementally against back-pressure, peak RSS {} KiB", name, c.sent_when_reader_woke, insize, c.maxrss_kib),
                         );
                     }
                 }
